@@ -23,6 +23,21 @@ class AnalysisError(Exception):
 # E1 index
 
 
+def bind_named(fn, spec, skip_first=True):
+    """arguments for a call of `fn` from values the caller knows by the parameter names of the reference tree: [(name, value), ...].
+    When the function still has parameters of those names they are bound by name (their order is the function's own business);
+    otherwise (parameters renamed) by position.  -> (args, kwargs)"""
+    params = [a.arg for a in fn.args.args][1 if skip_first else 0:]
+    names = [n for n, _ in spec]
+    if set(names) <= set(params):
+        n_default = len(fn.args.defaults)
+        for i, p_ in enumerate(params):
+            if p_ not in names and i < len(params) - n_default:
+                raise AnalysisError(f"{fn.name}: new required parameter {p_!r} (known: {names})")
+        return [], dict(spec)
+    return [v for _, v in spec], {}
+
+
 def _literal_like(value):
     """a literal, possibly spelled with the pure builtins list/tuple/range over literals (`list(range(1, 11))`)"""
     for n in ast.walk(value):
@@ -1089,6 +1104,51 @@ def bind_args(call, fn, method=True):
         if k.arg:
             out[k.arg] = k.value
     return out
+
+
+def args_by_ref_names(call, fn, names, method=True):
+    """argument expressions of `call` for the parameters of `fn` known (on the reference tree) by `names`: looked up by name when the
+    function still has parameters of those names, otherwise (renamed) by their positions in `names`' order.  Missing -> None"""
+    bound = bind_args(call, fn, method)
+    params = [a.arg for a in fn.args.args]
+    if method and params and params[0] in ("self", "cls"):
+        params = params[1:]
+    if set(names) <= set(params):
+        return [bound.get(n) for n in names]
+    return [bound.get(params[i]) if i < len(params) else None for i in range(len(names))]
+
+
+def ref_params(fn, names, method=True):
+    """the function's own names for the parameters known (on the reference tree) by `names`: the same names when it still has them,
+    otherwise the parameters at the positions `names` had"""
+    params = [a.arg for a in fn.args.args]
+    if method and params and params[0] in ("self", "cls"):
+        params = params[1:]
+    if set(names) <= set(params):
+        return list(names)
+    return [params[i] if i < len(params) else None for i in range(len(names))]
+
+
+def ref_positions(fn, names, method=True):
+    """positions, in the function's own parameter list (self not counted for methods), of the parameters known by `names`"""
+    params = [a.arg for a in fn.args.args]
+    if method and params and params[0] in ("self", "cls"):
+        params = params[1:]
+    if set(names) <= set(params):
+        return [params.index(n) for n in names]
+    return list(range(len(names)))
+
+
+def values_by_ref_names(fn, args, kwargs, names, method=True):
+    """like args_by_ref_names for evaluated arguments (a hook's positional list and keyword dict)"""
+    params = [a.arg for a in fn.args.args]
+    if method and params and params[0] in ("self", "cls"):
+        params = params[1:]
+    bound = dict(zip(params, args))
+    bound.update(kwargs)
+    if set(names) <= set(params):
+        return [bound.get(n) for n in names]
+    return [bound.get(params[i]) if i < len(params) else None for i in range(len(names))]
 
 
 def param_role(fn, pattern):
